@@ -172,16 +172,21 @@ Section Ws.
     destruct (next_from (skipn (idx s') (toks s')) (idx s')) as [t' j']. cbn [fst snd] in *.
     split.
     - cbn. rewrite E1, E2, !rem_cnt, Ht, Ht', Hc. apply Forall2_nth; [reflexivity|]. apply Forall2_skipn. exact Hts.
-    - repeat split; cbn; auto. rewrite Ht in C1. rewrite Ht' in C2. rewrite C1, C2, Hc. reflexivity.
+    - rewrite Ht in C1. rewrite Ht' in C2. unfold Rws. cbn [toks idx pst tc depth set_idx].
+      split; [exact Ht|]. split; [exact Ht'|]. split; [rewrite C1, C2, Hc; reflexivity|]. auto.
   Qed.
   Lemma ws_prev : RelW eq prev_token prev_token.
   Proof.
     intros d d' s s' _ (Ht & Ht' & Hc & Hp & Htc & Hd). unfold prev_token. rewrite Ht, Ht'.
     destruct (prev_cnt ts (idx s)) as [Z1 P1]. destruct (prev_cnt ts' (idx s')) as [Z2 P2].
     destruct (Nat.eq_0_gt_0_cases (cnt ts (idx s))) as [H0|H0].
-    - rewrite (Z1 H0), (Z2 (eq_trans (eq_sym Hc) H0)). cbn. split; [exact I|]. repeat split; cbn; auto.
+    - rewrite (Z1 H0), (Z2 (eq_trans (eq_sym Hc) H0)). cbn [fst snd Ro]. split; [exact I|].
+      unfold Rws. cbn [toks idx pst tc depth set_idx]. split; [exact Ht|]. split; [exact Ht'|].
+      split; [unfold cnt; cbn [firstn nonws filter length]; lia|]. auto.
     - destruct (P1 H0) as (j & -> & Ej). assert (H0' : (0 < cnt ts' (idx s'))%nat) by lia.
-      destruct (P2 H0') as (j' & -> & Ej'). cbn. split; [reflexivity|]. repeat split; cbn; auto. lia.
+      destruct (P2 H0') as (j' & -> & Ej'). cbn [fst snd Ro]. split; [reflexivity|].
+      unfold Rws. cbn [toks idx pst tc depth set_idx]. split; [exact Ht|]. split; [exact Ht'|].
+      split; [lia|]. auto.
   Qed.
 
   Lemma ws_facts : Facts Rdeq Rws err_sim tok_sim Ridx.
